@@ -18,7 +18,7 @@ from .common import set_interrupts, COMPONENTS_BASE, run_sim, new_sim, finish_ou
 
 PID = "C08"
 LEVEL = "fault_enumeration"
-BUDGET = {"quick": 2500, "thorough": 60000}
+BUDGET = {"quick": 2500, "thorough": 40000}
 RULE = (
     "each run samples a block program: <=6 ops over {apply tool T to the current scoped handle (16 tools of C01, "
     "further sources real), take j, then close / exhaust / abandon(+gc); pull the handle directly; enter a nested "
@@ -36,7 +36,7 @@ ASSUMPTIONS = [
     "underlying iterators without aclose get a neutral context by design: only the item differential is judged for them",
     "closing = aclose awaited exactly once (class-based) / generator frame gone (async generator)",
 ]
-PROBES = ("nested_scope", "exit_by_exception", "exit_by_cancel", "cancel_inside_tool", "tool_abandoned",
+PROBES = ("nested_scope", "inner_exception_caught_outer_continues", "exit_by_exception", "exit_by_cancel", "cancel_inside_tool", "tool_abandoned",
           "inner_scope_left_then_outer_used", "underlying_without_aclose", "tool_closed_midway")
 
 TOOL_NAMES = ("zip", "map", "filter", "filterfalse", "enumerate", "accumulate", "batched", "chain", "compress",
@@ -45,6 +45,24 @@ TOOL_NAMES = ("zip", "map", "filter", "filterfalse", "enumerate", "accumulate", 
 
 class BlockError(Exception):
     pass
+
+
+class ScopeError(Exception):
+    """Raised by a ('raise',) op inside a scope; caught outside the nearest nested scope with catch=1"""
+
+
+def skip_to_matching_leave(ops, start):
+    depth = 0
+    i = start
+    while i < len(ops):
+        if ops[i][0] == "enter":
+            depth += 1
+        elif ops[i][0] == "leave":
+            if depth == 0:
+                return i + 1
+            depth -= 1
+        i += 1
+    return i
 
 
 class Prep:
@@ -63,7 +81,17 @@ def prepare(ch):
     ops = []
     depth = 1
     for _ in range(ch.between(1, 6)):
-        kind = ch.weighted([6, 2, 2, 2])  # tool | direct pull | enter nested | leave nested
+        # tool | direct pull | enter nested | leave nested | raise inside scope | nested scope that fails and is caught
+        kind = ch.weighted([6, 2, 2, 2, 1, 2])
+        if kind == 5:
+            if depth < 3 and len(ops) < 6:
+                ops.append(("enter", 1))
+                if ch.chance(1, 2):
+                    ops.append(("pull", 1))
+                ops.append(("raise",))
+                ops.append(("leave",))
+                continue
+            kind = 1
         if kind == 0:
             gt = Gen(ch, cfg, "t%d" % len(ops))
             gt.uid = 1000 * (len(ops) + 1)
@@ -78,8 +106,11 @@ def prepare(ch):
         elif kind == 1:
             ops.append(("pull", ch.between(1, 2)))
         elif kind == 2 and depth < 3:
-            ops.append(("enter",))
+            # catch=1: an exception raised inside the nested scope is caught right outside of it
+            ops.append(("enter", ch.draw(2)))
             depth += 1
+        elif kind == 4:
+            ops.append(("raise",))
         elif kind == 3 and depth > 1:
             ops.append(("leave",))
             depth -= 1
@@ -141,7 +172,7 @@ def run_block(prep, st, mode, pos, interrupts):
                 handles.append(h1)
                 await run_ops(prep.ops, 0, handles, left)
                 res["exit"] = "fallthrough"
-        except BlockError:
+        except (BlockError, ScopeError):
             res["exit"] = "exception"
         except Cancel:
             res["exit"] = "cancel"
@@ -234,12 +265,22 @@ def run_block(prep, st, mode, pos, interrupts):
                 if app["end"] is None:
                     app["end"] = "partial"
                 i += 1
+            elif op[0] == "raise":
+                raise ScopeError("op %d" % i)
             elif op[0] == "enter":
-                async with L.scoped_iter(h) as inner:
-                    handles.append(inner)
-                    i = await run_ops(ops, i + 1, handles, left)
-                inner_h = handles.pop()
-                left.append(inner_h)
+                depth0 = len(handles)
+                try:
+                    async with L.scoped_iter(h) as inner:
+                        handles.append(inner)
+                        i = await run_ops(ops, i + 1, handles, left)
+                except ScopeError:
+                    if not op[1]:
+                        raise
+                    res["caught"] = True
+                    i = skip_to_matching_leave(ops, i + 1)
+                inner_h = handles[depth0]
+                while len(handles) > depth0:
+                    left.append(handles.pop())
                 res["left"].append(i)
                 # the inner scope is over: its handle is dead, the outer ones are not
                 if prep.src.flavour != "aiter_noclose":
@@ -333,13 +374,23 @@ def reference(prep, upto_apps):
                 if app["end"] is None:
                     app["end"] = "partial"
                 i += 1
+            elif op[0] == "raise":
+                raise ScopeError("op %d" % i)
             elif op[0] == "enter":
-                i = run_ops(ops, i + 1)
+                try:
+                    i = run_ops(ops, i + 1)
+                except ScopeError:
+                    if not op[1]:
+                        raise
+                    i = skip_to_matching_leave(ops, i + 1)
             else:
                 return i + 1
         return i
 
-    run_ops(prep.ops, 0)
+    try:
+        run_ops(prep.ops, 0)
+    except ScopeError:
+        pass
     return apps
 
 
@@ -408,6 +459,8 @@ def run_prepared(prep, st, ctx):
         out.probes["inner_scope_left_then_outer_used"] = 1
     if fl == "aiter_noclose":
         out.probes["underlying_without_aclose"] = 1
+    if res.get("caught") and res["left"] and any(a["op"] >= res["left"][0] for a in res["apps"]):
+        out.probes["inner_exception_caught_outer_continues"] = 1
     if any(a["end"] == "abandoned" for a in res["apps"]):
         out.probes["tool_abandoned"] = 1
         out.faults["tool_abandoned"] = 1
